@@ -8,6 +8,7 @@ import (
 	"sync"
 	"time"
 
+	"google.golang.org/grpc"
 	"google.golang.org/grpc/metadata"
 
 	"github.com/smart-core-os/sc-golang/internal/testproto"
@@ -250,7 +251,7 @@ func member(set, got string) bool {
 
 func runSelect(f lib.Flags, res *lib.Result, w *world, drv *lib.Driver) {
 	tie := res.Tie("select-model", "K2",
-		"exhaustive: set-up sequences on a bare wrap.ClientServerStream (6 header/trailer preludes x {live, cancelled, deadline passed, Close(err) for 9 classes of error value alone / after / before the cancel, Close after the deadline}) x one client call (RecvMsg, SendMsg, Header, Trailer), live streams also with a handler inside SendMsg / RecvMsg; plus wrap.UnwrapFully through the generated wrappers with 0-3 adapters stacked on them (Lean Unwrap.lean), plus the wait for the status after a single response (client-streaming calls through ServerToClient: handler returned each class of error value / parked with the caller cancelling / its deadline passing). Lean Select.lean lists what every READY select case returns after the same set-up run through the model's setHeader/sendHeader/abort/close: the real result is a member of that list, and the call blocks exactly when the list is empty; every case non-trivial")
+		"exhaustive: set-up sequences on a bare wrap.ClientServerStream (6 header/trailer preludes x {live, cancelled, deadline passed, Close(err) for 9 classes of error value alone / after / before the cancel, Close after the deadline}) x one client call (RecvMsg, SendMsg, Header, Trailer), live streams also with a handler inside SendMsg / RecvMsg; plus every list of up to three call options (grpc.Header / grpc.Trailer on four variables, an ignored option) on a successful and a failing unary call through the bare connection, a generated wrapper and a typed client on UnwrapService (Lean Opts.lean collectMetadata: the caller's variables afterwards), plus wrap.UnwrapFully through the generated wrappers with 0-3 adapters stacked on them (Lean Unwrap.lean), plus the wait for the status after a single response (client-streaming calls through ServerToClient: handler returned each class of error value / parked with the caller cancelling / its deadline passing). Lean Select.lean lists what every READY select case returns after the same set-up run through the model's setHeader/sendHeader/abort/close: the real result is a member of that list, and the call blocks exactly when the list is empty; every case non-trivial")
 	tie.Exhaustive = true
 	if drv == nil {
 		tie.Fail(fmt.Errorf("no Lean driver given"))
@@ -293,6 +294,7 @@ func runSelect(f lib.Flags, res *lib.Result, w *world, drv *lib.Driver) {
 			tie.Count("call:unwrap")
 		}
 	}
+	runOptLists(tie, res, w, drv)
 	// the wait for the status after the single response, through whole client-streaming calls
 	type aw struct {
 		setup string
@@ -325,5 +327,97 @@ func runSelect(f lib.Flags, res *lib.Result, w *world, drv *lib.Driver) {
 		}
 		tie.Record("await "+a.c.key(), true, a.c, m, code)
 		tie.Count("call:await")
+	}
+}
+
+// optsCall makes one unary call whose handler sets header a=1 and trailer b=2 (and answers, or fails with NotFound)
+// with the given list of call options — h<i> = grpc.Header(&vars[i]), t<i> = grpc.Trailer(&vars[i]), o = an option
+// the wrapper documents as ignored — and prints the caller's four variables afterwards.
+func optsCall(ep *endpoint, srv *scripted, via string, list []string, fail bool) string {
+	fin := "OK"
+	ops := "R,Ha=1,Tb=2,M1"
+	if fail {
+		fin, ops = "E5:e0", "R,Ha=1,Tb=2"
+	}
+	cl := &call{ops: parseSrv(ops), fin: parseFin(fin), shape: "unary", gate: make(chan struct{}), done: make(chan struct{})}
+	id := srv.register(cl)
+	defer srv.calls.Delete(id)
+	defer close(cl.gate)
+	ctx, cancel := context.WithTimeout(metadata.NewOutgoingContext(context.Background(), metadata.Pairs("script-id", id)), opTimeout)
+	defer cancel()
+	var vars [4]metadata.MD
+	var opts []grpc.CallOption
+	for _, o := range list {
+		switch o[0] {
+		case 'h':
+			opts = append(opts, grpc.Header(&vars[o[1]-'0']))
+		case 't':
+			opts = append(opts, grpc.Trailer(&vars[o[1]-'0']))
+		default:
+			opts = append(opts, grpc.WaitForReady(true))
+		}
+	}
+	var err error
+	if via != "" {
+		_, _, _, err = viaSvcs[via].unary(ep.typed[via], ctx, 1, opts...)
+	} else {
+		err = ep.cc.Invoke(ctx, svc+"Unary", &testproto.UnaryRequest{Msg: "m1"}, &testproto.UnaryResponse{}, opts...)
+	}
+	if (err != nil) != fail {
+		return "unexpected-result:" + errEvent(err)
+	}
+	var parts []string
+	for i, v := range vars {
+		if v == nil {
+			parts = append(parts, fmt.Sprintf("%d=nil", i))
+		} else {
+			parts = append(parts, fmt.Sprintf("%d=%s", i, canonMD(v)))
+		}
+	}
+	return strings.Join(parts, ";")
+}
+
+// runOptLists: every list of up to three call options over {Header(&v0), Header(&v1), Trailer(&v2), Trailer(&v3),
+// an ignored option} on a unary call, successful and failing: bare ServerToClient connection and the generated
+// onoff wrapper against the Lean collectMetadata (tie), and both against real gRPC (monitor).
+func runOptLists(tie *lib.Tie, res *lib.Result, w *world, drv *lib.Driver) {
+	mon := res.Monitor("call-options",
+		"unary calls with every list of up to three call options (grpc.Header / grpc.Trailer on four variables, an ignored option), handler setting header and trailer metadata, successful and failing: the caller's variables after the call are the same through wrap.ServerToClient, through a generated trait wrapper and over real gRPC")
+	alphabet := []string{"h0", "h1", "t2", "t3", "o"}
+	lists := [][]string{{}}
+	for n, from := 0, 0; n < 3; n++ {
+		to := len(lists)
+		for _, l := range lists[from:to] {
+			for _, a := range alphabet {
+				lists = append(lists, append(append([]string{}, l...), a))
+			}
+		}
+		from = to
+	}
+	for _, l := range lists {
+		m, err := drv.Ask("opts a=1 b=2 " + joinOps(l))
+		if err != nil {
+			tie.Fail(err)
+			return
+		}
+		for _, fail := range []bool{false, true} {
+			in := map[string]any{"options": joinOps(l), "fails": fail}
+			key := fmt.Sprintf("opts %s %v", joinOps(l), fail)
+			g := optsCall(w.grpcEP, w.srv, "", l, fail)
+			for _, via := range []string{"", "onoff", "metadata+us"} {
+				got := optsCall(w.wrapEP, w.srv, via, l, fail)
+				tie.Record(key+" via="+via, true, in, m, got)
+				tie.Count("call:options")
+				mon.Eval(key+" via="+via, true, in)
+				if got != g {
+					site := "bare"
+					if via != "" {
+						site = "generated-wrapper"
+					}
+					mon.Violate("C13/unary/call-options/"+site, "the caller's grpc.Header / grpc.Trailer variables after a unary call differ between the wrapped server and real gRPC",
+						map[string]any{"options": joinOps(l), "fails": fail, "via": via}, g, got)
+				}
+			}
+		}
 	}
 }
